@@ -5,7 +5,9 @@ from collections import defaultdict, deque
 class Facts:
     def __init__(self, d):
         self.d = d
-        self.config = d["config"]
+        self.config_name = d["config"]            # e.g. "std-rel"
+        self.config = d["config"].split("-")[0]   # feature set: std / alloc / core
+        self.profile = "release" if d["config"].endswith("-rel") else "dev"
         self.types = d["types"]
         self.adts = {a["path"]: a for a in d["adts"]}
         self.adts_c = {a["cpath"]: a for a in d["adts"]}
